@@ -342,6 +342,8 @@ func c09Run(c *mon.Ctx) {
 			oa, ob := na.Build(ic), nb.Build(ic)
 			if i%4 == 0 && na.Parseable() && nb.Parseable() {
 				po := &geojson.ParseOptions{IndexChildren: i % 3, IndexGeometry: 1 + i%2, IndexGeometryKind: geometry.IndexKind(i % 3), AllowSimplePoints: i%8 == 0, AllowRects: i%8 == 4}
+				na.DecorateBBoxes(r)
+				nb.DecorateBBoxes(r)
 				pa, e1 := geojson.Parse(na.JSON(), po)
 				pb, e2 := geojson.Parse(nb.JSON(), po)
 				if e1 == nil && e2 == nil {
